@@ -298,6 +298,14 @@ pub fn run(rep: &mut Report) {
     } else {
         vec![("D(2,2,Phi8)", 2, 2, false, &PHI8[..]), ("D(3,2,Phi8)", 3, 2, false, &PHI8[..]), ("D(3,2,Phi6)/bfirst", 3, 2, true, &PHI6[..]), ("D(2,3,Phi6)", 2, 3, false, &PHI6[..]), ("D(4,0,Phi4)", 4, 0, false, &PHI4[..])]
     };
+    // tolerance track: phases outside k*pi/4 (1/3, 1/8, 5/7) - the rules' scalar factors take the float route
+    // (from_phase, 1 + e^(i alpha)); judged by the same comparator, which is relative (1e-9) as soon as one side is approximate
+    let tol: Vec<Ph> = PHI4.iter().chain(PHI_TOL.iter()).cloned().collect();
+    let mut fams = fams;
+    fams.push(if quick { ("tolerance D(2,2,Phi4+tol)", 2, 2, false, &tol[..]) } else { ("tolerance D(3,1,Phi4+tol)", 3, 1, false, &tol[..]) });
+    if !quick {
+        fams.push(("tolerance D(2,2,Phi4+tol)", 2, 2, false, &tol[..]));
+    }
     for (name, s, b, bfirst, phis) in fams {
         let t0 = Instant::now();
         let structs = if s == 4 { structures(s, b, bfirst) } else { structures_upto(s, b, bfirst) };
